@@ -140,13 +140,29 @@ fn lc(sp: proc_macro2::Span, out: &mut String) {
 fn span_walk(ts: TokenStream, out: &mut String) {
     for tt in ts {
         match tt {
+            // (what the token *text* does not show is recorded here too: the delimiter of a
+            // group -- a `Delimiter::None` group prints like its contents -- and the spacing of
+            // a punctuation character)
             TokenTree::Group(g) => {
+                let (o, c) = match g.delimiter() {
+                    proc_macro2::Delimiter::Parenthesis => ('(', ')'),
+                    proc_macro2::Delimiter::Brace => ('{', '}'),
+                    proc_macro2::Delimiter::Bracket => ('[', ']'),
+                    proc_macro2::Delimiter::None => ('<', '>'),
+                };
+                out.push(o);
                 lc(g.span_open(), out);
                 span_walk(g.stream(), out);
+                out.push(c);
                 lc(g.span_close(), out);
             },
             TokenTree::Ident(i) => lc(i.span(), out),
-            TokenTree::Punct(p) => lc(p.span(), out),
+            TokenTree::Punct(p) => {
+                if p.spacing() == proc_macro2::Spacing::Joint {
+                    out.push('+');
+                }
+                lc(p.span(), out)
+            },
             TokenTree::Literal(l) => lc(l.span(), out),
         }
     }
